@@ -346,3 +346,55 @@ def symmetrised_kext_state(x, dA, dB, k):
     out /= math.factorial(k)
     ext = out.reshape(dA * dB**k, dA * dB**k)
     return herm(reduce_ABk_to_AB(ext, dA, dB, k)), ext
+
+
+# ----------------------------------------------------------------------------- independent SDP for the bosonic k-extension boundary
+def all_occupations(k, dB):
+    """all occupation tuples (n_0..n_{dB-1}) with sum k (own ordering)."""
+    if dB == 1:
+        return ((k,),)
+    out = []
+    for n0 in range(k, -1, -1):
+        for rest in all_occupations(k - n0, dB - 1):
+            out.append((n0,) + rest)
+    return tuple(out)
+
+
+@functools.lru_cache(maxsize=None)
+def bosonic_reduction_matrix(dA, dB, k):
+    """M with vec_F(rho_AB) = M vec_F(X) for X on A (x) Sym^k(B) (Dicke coordinates, own ordering):
+    rho_AB = sum_r K_r X K_r^T, K_r = 1_A (x) W_r, W_r[b, D] = <b, r | D> (r runs over the basis of B^(k-1))."""
+    emb = dicke_embedding(all_occupations(k, dB), dB)      # (nd, dB^k), rows orthonormal
+    nd = emb.shape[0]
+    w = emb.reshape(nd, dB, dB**(k - 1))
+    m = np.zeros(((dA * dB)**2, (dA * nd)**2))
+    for r in range(dB**(k - 1)):
+        wr = w[:, :, r].T                                   # (dB, nd)
+        if not np.any(wr):
+            continue
+        kr = np.kron(np.eye(dA), wr)                        # (dA*dB, dA*nd)
+        m += np.kron(kr, kr)                                # vec_F(K X K^T) = (K (x) K) vec_F(X) for real K
+    m.flags.writeable = False
+    return m, nd
+
+
+def bosonic_ext_boundary_sdp(rho, dA, dB, k, eps=1e-7):
+    """max beta such that rho0 + beta*unit(rho) = Tr_{B^(k-1)} X for some PSD X supported on A (x) Sym^k(B).
+    Own formulation (explicit Dicke embedding, one PSD block), solved with cvxpy/SCS at tolerance eps. Returns None if the
+    solver does not report 'optimal'."""
+    import cvxpy as cp
+    m, nd = bosonic_reduction_matrix(dA, dB, k)
+    d = dA * dB
+    u, _ = unit_direction(rho)
+    x = cp.Variable((dA * nd, dA * nd), hermitian=True)
+    beta = cp.Variable()
+    target = np.eye(d) / d + beta * u
+    cons = [x >> 0, m @ cp.vec(x, order='F') == cp.vec(target, order='F')]
+    prob = cp.Problem(cp.Maximize(beta), cons)
+    try:
+        prob.solve(solver='SCS', eps=eps, max_iters=200000)
+    except cp.error.SolverError:
+        return None
+    if prob.status != 'optimal' or beta.value is None:
+        return None
+    return float(beta.value)
